@@ -28,6 +28,18 @@ enum Op {
 }
 const NAMES: [&str; 3] = ["a", "b", "f"];
 
+/// the value a definition binds: most are ints, a few are the values an over-eager "is it set?"
+/// test could take for "absent" (null, false, the empty string, the empty list)
+fn val_sx(v: i64) -> String {
+    match v {
+        6 => "null".to_string(),
+        7 => "(bool 0)".to_string(),
+        8 => "(str x)".to_string(),
+        9 => "(list)".to_string(),
+        _ => format!("(int {v})"),
+    }
+}
+
 fn render(ops: &[Op]) -> (String, String) {
     // after every operation: lookups of all names, probes of all names.
     // returns (payload, expected observations from the reference stack-of-maps)
@@ -38,7 +50,7 @@ fn render(ops: &[Op]) -> (String, String) {
     for op in ops {
         match op {
             Op::Def(n, v) => {
-                payload.push(format!("(def {} (int {v}))", hex(NAMES[*n].as_bytes())));
+                payload.push(format!("(def {} {})", hex(NAMES[*n].as_bytes()), val_sx(*v)));
                 let top = stack.last_mut().unwrap();
                 if let Some(e) = top.iter_mut().find(|e| e.0 == *n) {
                     e.1 = *v;
@@ -64,7 +76,7 @@ fn render(ops: &[Op]) -> (String, String) {
         for (i, name) in NAMES.iter().enumerate() {
             payload.push(format!("(get {})", hex(name.as_bytes())));
             match stack.iter().rev().find_map(|s| s.iter().find(|e| e.0 == i).map(|e| e.1)) {
-                Some(v) => expect.push_str(&format!(" (int {v})")),
+                Some(v) => expect.push_str(&format!(" {}", val_sx(v))),
                 None => expect.push_str(" none"),
             }
         }
@@ -125,11 +137,18 @@ fn macro_program(rng: &mut Rng, depth: u32) -> String {
             _ => format!("{} + 1", rng.pick(&names)),
         };
     }
-    let range = match rng.below(4) {
+    let range = match rng.below(9) {
         0 => "[1, 2]".to_string(),
         1 => "l".to_string(),
         2 => format!("[{}, 5]", rng.pick(&names)),
-        _ => "[[1], [2, 3]]".to_string(),
+        3 => "[[1], [2, 3]]".to_string(),
+        // elements that a sloppy lookup could mistake for "not bound here": null, false, 0, '', []
+        4 => "[null, 1]".to_string(),
+        5 => "[false, 0, '', []]".to_string(),
+        // an element equal to the outer binding of the same name, between different ones
+        6 => format!("[1, {v}, 2]"),
+        7 => format!("[{v}, {v}]"),
+        _ => "[1, null, 100, 300]".to_string(),
     };
     let body = macro_program(rng, depth - 1);
     let m = match rng.below(5) {
